@@ -1873,9 +1873,9 @@ impl Ref {
                 }
             }
             v.push(cur);
-            if q {
-                return ReplyResult::Grey("reply with an unbalanced quote".into());
-            }
+            // an opening quote that is never closed keeps everything behind it inside the quotes:
+            // the commas there do not split (forward scan, as the statement reads)
+            let _ = q;
             v
         };
         if fields.len() != targets.len() {
